@@ -1167,6 +1167,17 @@ class Exec(Engine):
 
     def call_funcref(self, p, args, kwargs, fr, node):
         c = self.reg.get(p.key)
+        if getattr(self, "_rg_contract", None) is not None:
+            # rely/guarantee reasoning: a callee that touches the shared file system must be used through its own
+            # interference-aware contract (key@rg)
+            c_rg = self.reg.get(p.key + "@rg")
+            if c_rg is not None:
+                c = c_rg
+                if c_rg.hooks.get("inline_in_rg") and p.node is not None:
+                    # a tiny leaf whose file-system steps should appear in the caller's own trace (its @rg contract is verified separately)
+                    return self.inline_call(p, args, kwargs, fr, node, None)
+            elif c is not None and not c.inline and any(m.startswith("ghost:FS") or m == "*" for m in c.modifies):
+                raise Unsupported(f"{p.key} has no interference-aware contract (@rg)")
         st = fr.st
         if isinstance(p.node, ast.Lambda):
             return [Outcome("normal", st, val=self.inline_lambda(p, args, kwargs, fr))]
@@ -1241,6 +1252,10 @@ class Exec(Engine):
             if name in env:
                 env[name] = self.coerce(env[name], kind, fr)
         saved = st.env
+        for g_ in c.free:
+            # closure variables of a nested function: the values of the enclosing activation (shared with the caller when it is a sibling)
+            if g_ not in env and g_ in saved:
+                env[g_] = saved[g_]
         st.env = dict(env)
         cf = Frame(self, st, p.mod, fr.fn_key, contract=fr.contract, spec=True, cls=p.cls)
         try:
@@ -1347,6 +1362,18 @@ class Exec(Engine):
                 if isinstance(argnode, ast.Name) and argnode.id in saved:
                     saved[argnode.id] = nv
             outs.insert(0, Outcome("normal", st, val=res))
+            rg = getattr(self.reg, "symbols", {}).get("rg_before")
+            rgc = getattr(self, "_rg_contract", None)
+            if rgc is not None and rgc.guar and any(m.startswith("ghost:FS") or m == "*" for m in c.modifies):
+                # the callee's file-system steps are steps of this function too: its guarantee must be at least ours
+                have = {t_ for _, t_ in c.guar}
+                for nm_, t_ in rgc.guar:
+                    if t_ not in have:
+                        self.emit(fr.sub(spec=True), f"{nm_}.via_callee.{short}", z3.BoolVal(False), kind="guar", line=line)
+            if rg is not None and rgc is not None and (c.rely or c.guar):
+                # the callee's postcondition describes the instant it returned; other processes run on
+                for o_ in outs:
+                    rg(self, fr.sub(st=o_.st), node)
             cc = getattr(self.reg, "symbols", {}).get("crash_check")
             if cc is not None and fr.contract is not None and fr.contract.crash and any(m.startswith("ghost:FS") or m == "*" for m in c.modifies):
                 # the states a contracted callee can leave behind (normally or by raising) are states a crash can leave
@@ -1501,11 +1528,18 @@ class Exec(Engine):
         for g, kind in c.ghost.items():
             st.env[g] = named(kind, g) if not kind.startswith("z3:") else self.reg.spec["__mk_" + kind[3:]](g)
         for g, kind in c.free.items():
+            if kind.startswith("fn:"):
+                # a free variable naming another function of the repository (e.g. a sibling nested function)
+                k2 = kind[3:]
+                m2, n2 = self.repo.lookup(k2)
+                st.env[g] = mk_py(FuncRef(k2, node=n2, mod=m2))
+                continue
             v = named(kind, g + "$")
             if kind.startswith("obj:"):
                 st.assume(T.is_VObj(v.t))
                 st.assume(T.tag(v.t) == T.TAG["obj"])
             st.env[g] = v
+        self._rg_contract = c if (c.rely or c.guar) else None
         if c.setup:
             c.setup(self, fr)
         sf = fr.sub(spec=True)
